@@ -1,2 +1,175 @@
+(* C03 — stop-token protocol (inplace_stop_source / inplace_stop_token / inplace_stop_callback).
+   Model: Proto/StopSourceDefs.v; proofs: Proto/StopSourceProofs.v.  Every theorem quantifies over
+   all thread programs [progs], all callback bodies [bods] (programs too: re-entrancy is inside
+   the quantifier), hence over all numbers of threads and callbacks, and over all schedules.
+   Client discipline (a callback id is registered at most once, destroyed at most once and only
+   after its constructor returned) is enforced by the model: a violating instruction blocks. *)
 From Coq Require Import List Bool Arith.
 From V Require Import Base.Sched Proto.StopSourceDefs Proto.StopSourceProofs.
+Import ListNotations.
+Import StopSource.
+
+(* exactly one request_stop is the first: at most one call returns false, at most one call ever
+   takes the winning first step (the 0->3 acquisition), that happens iff stop is requested, only
+   the winner returns false, any returned call implies stop, and once every thread has finished
+   with stop requested exactly one call has returned false *)
+Theorem C03_first_unique : forall (progs bods : list prog) (sched : list nat),
+  let c := run step sched (init progs bods, []) in
+  let s := fst c in let tr := snd c in
+  cnt is_rsfalse tr <= 1 /\ cnt is_acq03 tr <= 1 /\
+  (cnt is_acq03 tr = 1 <-> stop s = true) /\
+  (forall t, In (t, ERsRet false) tr -> In (t, EAcq true 0 3) tr) /\
+  (forall t b, In (t, ERsRet b) tr -> stop s = true) /\
+  ((forall t, finished s t = true) -> stop s = true -> cnt is_rsfalse tr = 1).
+Proof. exact first_unique. Qed.
+Print Assumptions C03_first_unique.
+
+Theorem C03_stop_monotone : forall (progs bods : list prog) (sched1 sched2 : list nat),
+  stop (fst (run step sched1 (init progs bods, []))) = true ->
+  stop (fst (run step (sched1 ++ sched2) (init progs bods, []))) = true.
+Proof. exact stop_monotone. Qed.
+Print Assumptions C03_stop_monotone.
+
+(* what stop_requested() returns: true iff a request_stop took its first step before *)
+Theorem C03_stop_observed : forall (progs bods : list prog) (sched : list nat) pre t b v post,
+  snd (run step sched (init progs bods, [])) = pre ++ (t, EObs b v) :: post ->
+  (Nat.odd v = true <-> cnt is_acq03 pre = 1).
+Proof. exact stop_observed. Qed.
+Print Assumptions C03_stop_observed.
+
+Theorem C03_cb_at_most_once : forall (progs bods : list prog) (sched : list nat) (c : nat),
+  cnt (is_exec c) (snd (run step sched (init progs bods, []))) <= 1.
+Proof. exact cb_at_most_once. Qed.
+Print Assumptions C03_cb_at_most_once.
+
+(* a callback has run iff request_stop dequeued it while it was registered or its registration
+   found stop requested; never without a stop request *)
+Theorem C03_cb_iff : forall (progs bods : list prog) (sched : list nat) (c : nat),
+  let cf := run step sched (init progs bods, []) in
+  let s := fst cf in let tr := snd cf in
+  (cnt (is_exec c) tr = 1 <-> (cst (cbs s c) = CPopped \/ cst (cbs s c) = CInl)) /\
+  (cnt (is_exec c) tr = 0 <-> (cst (cbs s c) = CNew \/ cst (cbs s c) = CReg \/
+                               cst (cbs s c) = CLinked \/ cst (cbs s c) = CUnlinked)) /\
+  (cnt (is_exec c) tr = 1 -> stop s = true).
+Proof. exact cb_iff. Qed.
+Print Assumptions C03_cb_iff.
+
+(* ... and it is entered by the notifying thread right after unlocking, or inline by the
+   registering thread right after its registration observed the stop bit *)
+Theorem C03_exec_context : forall (progs bods : list prog) (sched : list nat) pre t c post,
+  snd (run step sched (init progs bods, [])) = pre ++ (t, EExec c) :: post ->
+  exists pre0 e, pre = pre0 ++ [e] /\ fst e = t /\
+    (snd e = ERel 1 \/ exists v, snd e = EObs false v /\ Nat.odd v = true).
+Proof. exact exec_context. Qed.
+Print Assumptions C03_exec_context.
+
+(* no registered callback is skipped: once the first request_stop returned the list is empty *)
+Theorem C03_cb_complete : forall (progs bods : list prog) (sched : list nat),
+  let cf := run step sched (init progs bods, []) in
+  let s := fst cf in let tr := snd cf in
+  (cnt is_rsfalse tr = 1 -> lst s = [] /\ forall c, cst (cbs s c) <> CLinked) /\
+  ((forall t, finished s t = true) -> stop s = true -> forall c, cst (cbs s c) <> CLinked).
+Proof. exact cb_complete. Qed.
+Print Assumptions C03_cb_complete.
+
+(* after the destructor of c returned on t: no event touches c (no execution, no
+   callbackCompleted_ store/load, no second destruction), no earlier destruction of c returned,
+   and c is not executing on any other thread (entries = exits per other thread) *)
+Theorem C03_dereg_quiescent : forall (progs bods : list prog) (sched : list nat) pre t c post,
+  snd (run step sched (init progs bods, [])) = pre ++ (t, EDeregRet c) :: post ->
+  (forall e, In e post -> touches c (snd e) = false) /\
+  (forall e, In e pre -> snd e <> EDeregRet c) /\
+  (forall t', t' <> t -> cnt (is_exec_by t' c) pre = cnt (is_end_by t' c) pre).
+Proof. exact dereg_quiescent. Qed.
+Print Assumptions C03_dereg_quiescent.
+
+Theorem C03_self_dereg_nonblocking : forall (progs bods : list prog) (sched : list nat),
+  let s := fst (run step sched (init progs bods, [])) in
+  (forall t c, notifier s = Some t -> ~ In (FDeregWait c) (thr s t)) /\
+  (forall t c k, In (FRun (Some c) k) (thr s t) -> cst (cbs s c) = CPopped -> notifier s = Some t) /\
+  (forall t c old rest, thr s t = FDeregCS c old :: rest -> notifier s = Some t ->
+     cst (cbs s c) <> CLinked ->
+     exists s', step t s = Some (s', [(t, ERel (word false old)); (t, EDeregRet c)]) /\ thr s' t = rest).
+Proof. exact self_dereg_nonblocking. Qed.
+Print Assumptions C03_self_dereg_nonblocking.
+
+Theorem C03_no_dangling : forall (progs bods : list prog) (sched : list nat) (c t : nat),
+  let s := fst (run step sched (init progs bods, [])) in
+  dst (cbs s c) = DDone t -> ~ In c (lst s).
+Proof. exact no_dangling. Qed.
+Print Assumptions C03_no_dangling.
+
+Theorem C03_dereg_ret_destroyed : forall (progs bods : list prog) (sched : list nat) (c t : nat),
+  let cf := run step sched (init progs bods, []) in
+  In (t, EDeregRet c) (snd cf) -> dst (cbs (fst cf) c) = DDone t.
+Proof. exact dereg_ret_destroyed. Qed.
+Print Assumptions C03_dereg_ret_destroyed.
+
+(* the protocol never deadlocks: if no thread can move and none waits for the client
+   discipline (constructor not returned yet / id reused / second destruction), all have finished *)
+Theorem C03_deadlock_free : forall (progs bods : list prog) (sched : list nat),
+  let s := fst (run step sched (init progs bods, [])) in
+  (forall t, step t s = None) -> (forall t, client_wait s t = false) ->
+  forall t, finished s t = true.
+Proof. exact deadlock_free. Qed.
+Print Assumptions C03_deadlock_free.
+
+(* the whole inductive invariant holds in every reachable configuration *)
+Theorem C03_inv_reachable : forall (progs bods : list prog) (sched : list nat),
+  InvX (run step sched (init progs bods, [])).
+Proof. exact InvX_run. Qed.
+Print Assumptions C03_inv_reachable.
+
+(* ------------------------------------------------------------------------------------------ *)
+(* the hypotheses are met by concrete, non-trivial runs                                       *)
+
+(* thread 0 registers callback 0; thread 1 waits for that and requests stop; the callback
+   destroys its own registration from inside (re-entrant remove_callback on the notifying
+   thread): no callbackCompleted_ store, request_stop returns false *)
+Example C03_example_self_dereg :
+  let progs := [[IReg 0]; [IWait 0; IReqStop]] in
+  let bods := [[IDereg 0]] in
+  let c := run step [0; 0; 1; 1; 1; 1; 1; 1; 1; 1; 1] (init progs bods, []) in
+  finished (fst c) 0 = true /\ finished (fst c) 1 = true /\
+  cb_summary (fst c) 0 = (CPopped, XEnded, DDone 1, false) /\
+  snd c = [(0, EAcq true 0 2); (0, ERel 0); (1, EWaitReg 0); (1, EAcq true 0 3);
+           (1, ERel 1); (1, EExec 0); (1, EDeregBegin 0); (1, EAcq false 1 3);
+           (1, ERel 1); (1, EDeregRet 0); (1, EEnd 0); (1, EAcq false 1 3);
+           (1, ERel 1); (1, ERsRet false)].
+Proof. vm_compute. repeat split; reflexivity. Qed.
+
+(* a third thread destroys the callback while it is running on the notifying thread: the
+   destructor blocks (the model step is disabled) until callbackCompleted_ is stored; two
+   request_stop callers, exactly one returns false *)
+Example C03_example_racing_dereg :
+  let progs := [[IReg 0]; [IWait 0; IReqStop]; [IWait 0; IDereg 0; IReqStop]] in
+  let bods := [[IStopReq]] in
+  let mid := run step [0; 0; 1; 1; 1; 2; 2; 2; 2] (init progs bods, []) in
+  let c := run step [0; 0; 1; 1; 1; 2; 2; 2; 2; 2; 1; 1; 1; 2; 2; 1; 1] (init progs bods, []) in
+  step 2 (fst mid) = None /\ client_wait (fst mid) 2 = false /\
+  thr (fst mid) 2 = [FDeregWait 0; FRun None [IReqStop]] /\
+  finished (fst c) 0 = true /\ finished (fst c) 1 = true /\ finished (fst c) 2 = true /\
+  cb_summary (fst c) 0 = (CPopped, XEnded, DDone 2, true) /\
+  cnt is_rsfalse (snd c) = 1 /\
+  snd c = [(0, EAcq true 0 2); (0, ERel 0); (1, EWaitReg 0); (1, EAcq true 0 3);
+           (1, ERel 1); (1, EExec 0); (2, EWaitReg 0); (2, EDeregBegin 0); (2, EAcq false 1 3);
+           (2, ERel 1); (1, EObs true 1); (1, EEnd 0); (1, EDone 0);
+           (2, EWait 0); (2, EDeregRet 0); (2, EObs false 1); (2, ERsRet true);
+           (1, EAcq false 1 3); (1, ERel 1); (1, ERsRet false)].
+Proof. vm_compute. repeat split; reflexivity. Qed.
+
+(* registration after the stop: the callback runs inline on the registering thread, its body
+   registers and destroys a second callback (nested inline execution) *)
+Example C03_example_inline :
+  let progs := [[IReqStop; IReg 0; IDereg 0]] in
+  let bods := [[IReg 1; IDereg 1]; [IReqStop]] in
+  let c := run step [0; 0; 0; 0; 0; 0; 0; 0; 0] (init progs bods, []) in
+  finished (fst c) 0 = true /\
+  cb_summary (fst c) 0 = (CInl, XEnded, DDone 0, false) /\
+  cb_summary (fst c) 1 = (CInl, XEnded, DDone 0, false) /\
+  snd c = [(0, EAcq true 0 3); (0, ERel 1); (0, ERsRet false);
+           (0, EObs false 1); (0, EExec 0); (0, EObs false 1); (0, EExec 1);
+           (0, EObs false 1); (0, ERsRet true); (0, EEnd 1);
+           (0, EDeregBegin 1); (0, EDeregRet 1); (0, EEnd 0);
+           (0, EDeregBegin 0); (0, EDeregRet 0)].
+Proof. vm_compute. repeat split; reflexivity. Qed.
